@@ -334,6 +334,20 @@ def blocked_cases(rep, quick, seed):
         else:
             runs.append(attempt(dperm, aperm, "permuted-pixels", "perm"))
         cases.append({"op": "blocked", "name": name, "base": base, "runs": runs})
+        if name == "zonal_mean":
+            # two lazy results with the same name over different zone rasters, evaluated in ONE graph: each equals its eager twin
+            z2 = aux["zones"].copy(data=(np.asarray(aux["zones"]) + 1) % 3)
+            z2.attrs = aux["zones"].attrs
+            try:
+                e1, e2 = da.hdc.zonal.mean(aux["zones"], [0, 1, 2], name="zm"), da.hdc.zonal.mean(z2, [0, 1, 2], name="zm")
+                dl = da.chunk({"time": 4})
+                l1, l2 = dask.compute(dl.hdc.zonal.mean(aux["zones"], [0, 1, 2], name="zm"), dl.hdc.zonal.mean(z2, [0, 1, 2], name="zm"))
+                for tag, e, l in (("A", e1, l1), ("B", e2, l2)):
+                    b_ = dict(digest_result(e, ny, nx), outcome="ok")
+                    r_ = dict(digest_result(l, ny, nx), outcome="ok", cfg=f"dask:joint-compute-same-name:{tag}", kind="lazy", timechunked=False)
+                    cases.append({"op": "blocked", "name": f"zonal_mean(joint {tag})", "base": b_, "runs": [r_]})
+            except Exception as ex:
+                cases.append({"op": "blocked", "name": "zonal_mean(joint)", "base": dict(base), "runs": [{"cfg": "dask:joint-compute-same-name", "kind": "lazy", "timechunked": False, "outcome": f"raise:{type(ex).__name__}", "px": [], "dims": [], "dtype": "", "coords": []}]})
     return cases
 
 
